@@ -298,6 +298,9 @@ def run_case(case, ctx):
                     ('_flatten_per_cluster', lambda: pa._flatten_per_cluster(spc)),
                     ('grouped_mean', lambda: pa.grouped_mean(np.arange(n) * 1.5 + 1, sc)),
                     ('grouped_mean', lambda: pa.grouped_mean(arr2, sc)),
+                    # the same values stored column-major (a transposed (columns, spikes) array)
+                    ('grouped_mean', lambda: pa.grouped_mean(np.asfortranarray(arr2), sc)),
+                    ('grouped_mean', lambda: pa.grouped_mean(np.ascontiguousarray(arr2.T).T, sc)),
                     # single-precision values far from zero (large clusters: the sum must not be accumulated in float32)
                     ('grouped_mean', lambda: pa.grouped_mean((1000.3 + np.cos(np.arange(n)) * 0.01).astype(np.float32), sc)),
                     # values of very different magnitude / non-finite values in a lower cluster must not leak into others
@@ -424,6 +427,22 @@ def _model_case(case, ctx):
                 if not rr.ok or same(rr.value, exp, dtype=False):
                     ctx.violation('model_query', case, 'after an in-place update, get_template_counts(%d) -> %r' % (
                         c, rr.value if rr.ok else rr.exc), {'model': True, 'after_inplace_update': True}, tb=rr.tb)
+        # history: the caller replaces the assignment vector by a new array (model.spike_clusters = ...), as after a re-clustering
+        sc3 = np.roll(np.asarray(sc2), 1).astype(np.int32)
+        m.spike_clusters = sc3
+        ctx.mon('assignment_vector_replaced')
+        for c in sorted(set(np.unique(sc3).tolist()))[:4]:
+            rr = call(m.get_cluster_spikes, c)
+            if not rr.ok or same(rr.value, np.nonzero(sc3 == c)[0], dtype=False):
+                ctx.violation('model_query', case, 'after model.spike_clusters was replaced by a new array, get_cluster_spikes(%d) -> %r' % (
+                    c, rr.value if rr.ok else rr.exc), {'model': True, 'after_replacement': True}, tb=rr.tb)
+                break
+            rr = call(m.get_template_counts, c)
+            exp = np.bincount(st[sc3 == c].astype(np.int64), minlength=n_tpl)
+            if not rr.ok or same(rr.value, exp, dtype=False):
+                ctx.violation('model_query', case, 'after the replacement, get_template_counts(%d) -> %r' % (
+                    c, rr.value if rr.ok else rr.exc), {'model': True, 'after_replacement': True}, tb=rr.tb)
+                break
         call(m.close)
     finally:
         shutil.rmtree(d, ignore_errors=True)
